@@ -1070,6 +1070,50 @@ func genHistBacklog(r *hx.Rand, n int, level2 bool) HistCase {
 	return h
 }
 
+// genHistRestart: writes and syncs (replicated transactions still only in the WAL), then a restart
+// (Close + new DB object, or a crash: object abandoned), 0-2 idle syncs, then a snapshot (DB.Snapshot
+// or the level-9 Store.CompactDB), with and without a following write+sync; repeated a few times.
+func genHistRestart(r *hx.Rand) HistCase {
+	h := HistCase{PageSize: []int{512, 1024, 4096}[r.Intn(3)], AutoVacuum: 0, Levels: 1 + r.Intn(3)}
+	write := func() {
+		switch r.Intn(4) {
+		case 0:
+			h.Ops = append(h.Ops, HOp{Op: "update", A: r.Intn(1000), B: 10 + r.Intn(300)})
+		case 1:
+			h.Ops = append(h.Ops, HOp{Op: "sql", SQL: fmt.Sprintf("CREATE TABLE IF NOT EXISTS r%d (id INTEGER PRIMARY KEY, v BLOB)", r.Intn(4))})
+		default:
+			h.Ops = append(h.Ops, HOp{Op: "insert", A: 1 + r.Intn(4), B: 20 + r.Intn(1200)})
+		}
+	}
+	rounds := 2 + r.Intn(3)
+	for k := 0; k < rounds; k++ {
+		for i := 0; i < 1+r.Intn(4); i++ {
+			write()
+			h.Ops = append(h.Ops, HOp{Op: "sync"})
+		}
+		if r.Chance(25) {
+			h.Ops = append(h.Ops, HOp{Op: "compact", A: 1})
+		}
+		h.Ops = append(h.Ops, HOp{Op: "restart", A: r.Intn(2)})
+		for i := r.Intn(3); i > 0; i-- {
+			h.Ops = append(h.Ops, HOp{Op: "sync"}) // idle
+		}
+		if r.Chance(20) {
+			write() // an unsynced commit behind the replicated frames
+		}
+		h.Ops = append(h.Ops, HOp{Op: "snapshot", B: r.Intn(2)})
+		if r.Bool() {
+			write()
+			h.Ops = append(h.Ops, HOp{Op: "sync"})
+		}
+		if r.Chance(30) {
+			h.Ops = append(h.Ops, HOp{Op: "checkpoint", A: r.Intn(3)})
+		}
+	}
+	h.Ops = append(h.Ops, HOp{Op: "sync"}, HOp{Op: "compact", A: 1}, HOp{Op: "snapshot"})
+	return h
+}
+
 func genHist(r *hx.Rand, nops int) HistCase {
 	h := HistCase{PageSize: []int{512, 1024, 4096}[r.Intn(3)], AutoVacuum: r.Intn(3), Levels: 1 + r.Intn(8), ViaStore: r.Chance(30)}
 	ntab := 1
@@ -1106,8 +1150,10 @@ func genHist(r *hx.Rand, nops int) HistCase {
 			h.Ops = append(h.Ops, HOp{Op: "compact", A: lvl})
 		case x < 97:
 			h.Ops = append(h.Ops, HOp{Op: "snapshot"})
-		default:
+		case x < 99:
 			h.Ops = append(h.Ops, HOp{Op: "l0retention"})
+		default:
+			h.Ops = append(h.Ops, HOp{Op: "restart", A: r.Intn(2)})
 		}
 	}
 	h.Ops = append(h.Ops, HOp{Op: "sync"})
@@ -1148,12 +1194,17 @@ func runHist(h HistCase, drv *hx.Driver, root string, n int) (hr histResult) {
 	ps := uint32(h.PageSize)
 	lock := ltx.LockPgno(ps)
 
-	db := litestream.NewDB(dbPath)
-	db.MonitorInterval = 0
-	db.Logger = quiet
 	client := file.NewReplicaClient(filepath.Join(dir, "replica"))
-	db.Replica = litestream.NewReplicaWithClient(db, client)
-	db.Replica.MonitorEnabled = false
+	newDB := func() *litestream.DB {
+		d := litestream.NewDB(dbPath)
+		d.MonitorInterval = 0
+		d.Logger = quiet
+		d.Replica = litestream.NewReplicaWithClient(d, client)
+		d.Replica.MonitorEnabled = false
+		d.ShutdownSyncTimeout = 0
+		return d
+	}
+	db := newDB()
 	levels := litestream.CompactionLevels{{Level: 0}}
 	for l := 1; l <= h.Levels; l++ {
 		levels = append(levels, &litestream.CompactionLevel{Level: l, Interval: time.Nanosecond})
@@ -1164,7 +1215,13 @@ func runHist(h HistCase, drv *hx.Driver, root string, n int) (hr histResult) {
 	if err := db.Open(); err != nil {
 		hx.Fatal(err)
 	}
-	defer db.Close(ctx)
+	// every DB object ever created (restart / crash ops replace db) is closed at the end
+	objs := []*litestream.DB{db}
+	defer func() {
+		for k := len(objs) - 1; k >= 0; k-- {
+			objs[k].Close(ctx)
+		}
+	}()
 
 	l0 := map[uint64]LF{} // archived at birth
 	var maxL0 uint64
@@ -1328,6 +1385,28 @@ func runHist(h HistCase, drv *hx.Driver, root string, n int) (hr histResult) {
 				hr.violation = why
 				return
 			}
+		case "restart":
+			// A=0: clean stop (Close) and a new DB object; A=1: crash — the object is abandoned
+			// without Close (its descriptors stay open until the end of the run, like a killed
+			// process whose locks are gone but whose files are as it left them)
+			if op.A == 0 {
+				if e := db.Close(ctx); e != nil {
+					hr.stats["close-error"]++
+				}
+			} else {
+				hr.stats["crash-restart"]++
+			}
+			nd := newDB()
+			nd.SetLogger(quiet)
+			if e := nd.Open(); e != nil {
+				hx.Fatal(fmt.Errorf("reopen: %w", e))
+			}
+			objs = append(objs, nd)
+			db = nd
+			if why := archive(); why != "" {
+				hr.violation = why
+				return
+			}
 		case "l0retention":
 			db.L0Retention = time.Nanosecond
 			if e := db.EnforceL0RetentionByTime(ctx); e != nil {
@@ -1367,6 +1446,8 @@ func runHist(h HistCase, drv *hx.Driver, root string, n int) (hr histResult) {
 			var info *ltx.FileInfo
 			var cerr error
 			switch {
+			case op.Op == "snapshot" && op.B == 1: // the level-9 path of the compaction monitor
+				info, cerr = store.CompactDB(ctx, db, &litestream.CompactionLevel{Level: litestream.SnapshotLevel})
 			case op.Op == "snapshot":
 				info, cerr = db.Snapshot(ctx)
 			case h.ViaStore:
@@ -1500,7 +1581,7 @@ type replayFile struct {
 func main() {
 	o := hx.ParseFlags("C06")
 	res := hx.NewResult(o, "c06: ltx.Compactor / litestream.Compactor.Compact / DB.Compact+Snapshot+Restore vs Lean compact/compactPick + composition oracle")
-	res.Rule = "codec stream: seeded random chains of 1..7 logical LTX files (page size 512; growing/shrinking commits, in-chain full snapshots, overlapping and non-contiguous ranges, sparse pages around the lock page; plus long backlogs of 1,2,3,63,64,65,66,100,130,300 single-TXID files before one compaction at level 1 and of up to 130 (thorough 300) level-1 files before one compaction at level 2, compacted until ErrNoCompaction, with Restore(TXID=t) for every t) through the real encoder, ltx.Compactor, decoder and litestream.Compactor.Compact (levels 1..3 over a file replica, with and without max-file cache); history stream: seeded real SQLite histories (page sizes 512/1024/4096, auto_vacuum 0/1/2, inserts/updates/deletes/VACUUM/schema changes/checkpoints) with sync, Compact(level) for 1..8-level layouts (DB.Compact or Store.CompactDB), Snapshot, L0 retention, backlog histories (65..130 tiny synced transactions before draining level 1, and as many level-1 files before draining level 2; thorough up to 300), Restore(TXID) of every TXID before and after every compaction. non-trivial = codec case with >=2 files, history with >=1 successful compaction; distinct = canonical JSON of the case"
+	res.Rule = "codec stream: seeded random chains of 1..7 logical LTX files (page size 512; growing/shrinking commits, in-chain full snapshots, overlapping and non-contiguous ranges, sparse pages around the lock page; plus long backlogs of 1,2,3,63,64,65,66,100,130,300 single-TXID files before one compaction at level 1 and of up to 130 (thorough 300) level-1 files before one compaction at level 2, compacted until ErrNoCompaction, with Restore(TXID=t) for every t) through the real encoder, ltx.Compactor, decoder and litestream.Compactor.Compact (levels 1..3 over a file replica, with and without max-file cache); history stream: seeded real SQLite histories (page sizes 512/1024/4096, auto_vacuum 0/1/2, inserts/updates/deletes/VACUUM/schema changes/checkpoints) with sync, Compact(level) for 1..8-level layouts (DB.Compact or Store.CompactDB), Snapshot (DB.Snapshot and level-9 Store.CompactDB), L0 retention, restart histories (Close + new DB object or crash-abandoned object, 0-2 idle syncs, then snapshot, with and without a following write+sync), backlog histories (65..130 tiny synced transactions before draining level 1, and as many level-1 files before draining level 2; thorough up to 300), Restore(TXID) of every TXID before and after every compaction. non-trivial = codec case with >=2 files, history with >=1 successful compaction; distinct = canonical JSON of the case"
 	tmp, err := os.MkdirTemp("", "c06-")
 	if err != nil {
 		hx.Fatal(err)
@@ -1636,6 +1717,15 @@ func main() {
 	}
 	for k, hb := range histBack {
 		if histFail < 2 && !evalHist(genHistBacklog(rnd.Fork(), hb[0], hb[1] == 1), 500000+k) {
+			histFail++
+		}
+	}
+	nRestart := 8
+	if o.Tier == "thorough" {
+		nRestart = 80
+	}
+	for k := 0; k < nRestart && histFail < 2; k++ {
+		if !evalHist(genHistRestart(rnd.Fork()), 700000+k) {
 			histFail++
 		}
 	}
